@@ -49,7 +49,7 @@ STORED_GET = ["{'a': 0}", "{'a': 0, 'b': [1]}", "{'a': {'b': 0}, 'c': 1}", "{0: 
 
 
 def bounds(tier):
-    return {"stored_eq": len(STORED_EQ), "seq_len": _k(tier), "spellings": sorted(SPELL) + ["[k]", "[k][k]", "[k]<=", "[k]in"],
+    return {"real_session_differential_tests": len(RD_BODIES) + sum(len(c) for _, c in RD_HELPERS), "stored_eq": len(STORED_EQ), "seq_len": _k(tier), "spellings": sorted(SPELL) + ["[k]", "[k][k]", "[k]<=", "[k]in"],
             "ordered_kinds": {k: len(v) for k, v in ORDERED.items()}}
 
 
@@ -247,11 +247,98 @@ def _run_probe(c):
     return None
 
 
+# real sessions, active without flags vs. --inline-snapshot=disable: every test must have the same outcome.
+# Bodies re-evaluate one call site (loop / helper used by two tests) whose argument holds user-controlled parts or inner
+# snapshots in places where the implementation compares values on its own (defaults of constructor calls, re-evaluation).
+RD_PRE = ("import pytest\nfrom dataclasses import dataclass, field\nfrom collections import namedtuple\nimport attrs\nimport pydantic\n"
+          "from inline_snapshot import snapshot, Is\n\n\n"
+          "@dataclass\nclass DC:\n    x: object\n    y: int = 0\n    z: list = field(default_factory=list)\n\n\n"
+          "@attrs.define\nclass AT:\n    a: object\n    b: int = 5\n    c: list = attrs.Factory(list)\n\n\n"
+          "class PM(pydantic.BaseModel):\n    a: object\n    b: int = 7\n\n\n"
+          "NTD = namedtuple('NTD', 'a,b', defaults=[9])\n\n\n")
+RD_BODIES = [
+    "for _ in (1, 2):\n        assert DC(x=1, y=5) == snapshot(DC(x=1, y=snapshot(5)))",
+    "for _ in (1, 2):\n        assert DC(x=1, y=5, z=[1]) == snapshot(DC(x=1, y=snapshot(5), z=snapshot([1])))",
+    "for _ in (1, 2, 3):\n        assert AT(a=1, b=7) == snapshot(AT(a=1, b=snapshot(7)))",
+    "for _ in (1, 2):\n        assert AT(a=1, c=[2]) == snapshot(AT(a=1, c=snapshot([2])))",
+    "for _ in (1, 2):\n        assert PM(a=[1], b=3) == snapshot(PM(a=snapshot([1]), b=3))",  # (a typed field would reject the wrapper in the model's own validation)
+    "for _ in (1, 2):\n        assert NTD(a=1, b=5) == snapshot(NTD(a=1, b=snapshot(5)))",
+    "for _ in (1, 2):\n        assert NTD(a=1, b=5) == snapshot(NTD(a=1, b=Is(5)))",
+    "for i in (1, 2):\n        assert DC(x=1, y=i) == snapshot(DC(x=1, y=Is(i)))",
+    "for i in (1, 2):\n        assert AT(a=i, b=i) == snapshot(AT(a=Is(i), b=Is(i)))",
+    "for _ in (1, 2):\n        assert [1, 2] == snapshot([snapshot(1), 2])",
+    "for _ in (1, 2):\n        assert {'a': 1, 'b': [2]} == snapshot({'a': snapshot(1), 'b': [snapshot(2)]})",
+    "for _ in (1, 2):\n        assert [DC(x=1, y=5)] == snapshot([DC(x=1, y=snapshot(5))])",
+    "for _ in (1, 2):\n        s = snapshot({'k': DC(x=1, y=snapshot(5))})\n        assert s['k'] == DC(x=1, y=5)",
+    "for _ in (1, 2):\n        assert DC(x=1, y=5) in snapshot([DC(x=1, y=5)])",
+    "assert DC(x=1, y=5) == snapshot(DC(x=1, y=snapshot(5)))",
+    "assert DC(x=1, y=6) == snapshot(DC(x=1, y=snapshot(5)))",
+    "for _ in (1, 2):\n        assert DC(x=1, y=0) == snapshot(DC(x=1))",
+    "for _ in (1, 2):\n        assert DC(x=1) == snapshot(DC(x=1, y=0, z=[]))",
+    "for v in (5, 5):\n        assert v <= snapshot(5)\n        assert v in snapshot([5])\n        assert snapshot({'a': 5})['a'] == v",
+]
+RD_HELPERS = [
+    ("def helper_%d(v):\n    assert DC(x=1, y=v) == snapshot(DC(x=1, y=snapshot(5)))\n", ["helper_%d(5)", "helper_%d(5)"]),
+    ("def helper_%d(v):\n    assert AT(a=v) == snapshot(AT(a=snapshot(1), b=5))\n", ["helper_%d(1)", "helper_%d(1)"]),
+    ("S_%d = snapshot(DC(x=1, y=snapshot(5)))\n", ["assert DC(x=1, y=5) == S_%d", "assert S_%d == DC(x=1, y=5)"]),
+]
+
+
+def _realdiff_source():
+    out = [RD_PRE]
+    for i, b in enumerate(RD_BODIES):
+        out.append("def test_b%02d():\n    %s\n\n\n" % (i, b))
+    for i, (h, calls) in enumerate(RD_HELPERS):
+        out.append((h % i) + "\n\n")
+        for j, c in enumerate(calls):
+            out.append("def test_h%02d_%d():\n    %s\n\n\n" % (i, j, c % i))
+    return "".join(out)
+
+
+def _run_realdiff():
+    from ..drivers import plugin
+
+    src = _realdiff_source()
+    res = []
+    for argv in ([], ["--inline-snapshot=disable"], ["--inline-snapshot=report"]):
+        d = plugin.mk_project({"test_something.py": src, "pyproject.toml": ""})
+        try:
+            r = plugin.session(d, argv, timeout=240)
+            after = plugin.listing(d, text=True)["test_something.py"]
+        finally:
+            plugin.cleanup()
+        if plugin.internal_error(r["out"]) or r["rc"] not in (0, 1):
+            return [("realdiff-session-failed", "argv=%s rc=%s %s" % (argv, r["rc"], r["out"][-800:]))], 0
+        if after != src:
+            return [("file-changed-without-flags", "argv=%s" % argv)], 0
+        # "a test passes with inline-snapshot active if and only if it passes with --inline-snapshot=disable"
+        res.append({k: ("passed" if v == ["PASSED"] else "not-passed") for k, v in r["outcomes"].items()})
+    viol = []
+    n = 0
+    for nid in sorted(res[1]):
+        n += 1
+        for k, lab in ((0, "no flags"), (2, "report")):
+            if res[k].get(nid) != res[1][nid]:
+                viol.append(("outcome-differs-from-disabled-session", "%s: %s %s, disabled %s\n%s" % (
+                    nid, lab, res[k].get(nid), res[1][nid], _rd_body(nid))))
+    if n < len(RD_BODIES):
+        viol.append(("realdiff-session-failed", "only %d tests reported" % n))
+    return viol, n
+
+
+def _rd_body(nid):
+    name = nid.split("::")[-1]
+    src = _realdiff_source()
+    i = src.find("def %s(" % name)
+    return src[i : i + 300]
+
+
 def build(tier, seed):
     cs = _cases(tier)
     tasks = [{"cases": cs[i : i + BATCH]} for i in range(0, len(cs), BATCH)]
     pc = _probe_cases()
     tasks += [{"probes": pc[i : i + 4]} for i in range(0, len(pc), 4)]
+    tasks.append({"realdiff": True})
     return tasks
 
 
@@ -382,6 +469,9 @@ def _nontrivial(c, ctx):
 def run_case(case):
     from ..engine import batch
 
+    if "realdiff" in case:
+        vs, _ = _run_realdiff()
+        return [{"case": case, "what": w, "detail": d} for w, d in vs if w == case.get("what", w)]
     if "probe" in case:
         v = _run_probe(case)
         return [{"case": case, "what": v[0], "detail": v[1]}] if v else []
@@ -391,6 +481,11 @@ def run_case(case):
 def run_task(task):
     from ..engine import batch
 
+    if "realdiff" in task:
+        vs, n = _run_realdiff()
+        return {"n": n, "nontrivial": ["realdiff-%d" % i for i in range(n)] if not vs else [], "outcomes": {("ok:realdiff" if not vs else "viol:" + vs[0][0]): n or 1},
+                "violations": [{"case": {"realdiff": True, "what": w, "test": d.split(":", 3)[2] if d.count(":") > 2 else ""}, "what": w, "detail": d} for w, d in vs],
+                "samples": [{"realdiff_tests": n}]}
     if "probes" in task:
         out = {"n": 0, "nontrivial": [], "outcomes": {}, "violations": [], "samples": []}
         for c in task["probes"]:
